@@ -98,6 +98,27 @@ def gen_case(seed, idx):
         pos = frng.choice(["first", "last", "first"])
         name = "src/%s_surplus%d.f90" % ("aaa" if pos == "first" else "zzzz", j)
         sets.append({"files": {name: dmg}, "kinds": {name: "surplus_end_%s@%s" % (how, pos)}, "must_reject": True})
+    # faults in reading: a dangling symlink in place of a source file, include files that are missing,
+    # undecodable, or included by a file that is otherwise fine
+    for j in range(3):
+        how = frng.choice(["dangling", "inc_missing", "inc_missing_h", "inc_undecodable", "inc_self_cycle"])
+        pos = frng.choice(["aaa", "zzzz", "mmm"])
+        name = "src/%s_rd%d.f90" % (pos, j)
+        fset = {}
+        if how == "dangling":
+            fset[name] = {"symlink": "no/such/target.f90"}
+        elif how == "inc_missing":
+            fset[name] = "module %sinc%d\n  integer :: %siv%d\n  include \"%s_nowhere.inc\"\nend module %sinc%d\n" % (PREFIX, j, PREFIX, j, PREFIX, PREFIX, j)
+        elif how == "inc_missing_h":
+            fset[name] = "module %sinc%d\n  integer :: %siv%d\n  include \"%s_nowhere.h\"\nend module %sinc%d\n" % (PREFIX, j, PREFIX, j, PREFIX, PREFIX, j)
+        elif how == "inc_undecodable":
+            fset[name] = "module %sinc%d\n  include \"%sbad%d.inc\"\nend module %sinc%d\n" % (PREFIX, j, PREFIX, j, PREFIX, j)
+            fset["src/%sbad%d.inc" % (PREFIX, j)] = {"b64": "ICBpbnRlZ2VyIDo6IHp6aW5jdmFyCiAgISBjb21tZW50IHdpdGggYSBiYWQgYnl0ZSD/IGhlcmUK"}
+        else:
+            fset[name] = "module %sinc%d\n  include \"%scyc%d.inc\"\nend module %sinc%d\n" % (PREFIX, j, PREFIX, j, PREFIX, j)
+            fset["src/%scyc%d.inc" % (PREFIX, j)] = "  include \"%scyc%d.inc\"\n" % (PREFIX, j)
+        sets.append({"files": fset, "kinds": {name: "read_%s@%s" % (how, {"aaa": "first", "zzzz": "last", "mmm": "between"}[pos])},
+                     "only_named": [name]})
     # many rejected files in one run, under a low limit on open files: each rejected file must be let go of
     if idx % 4 == 0:
         many = {}
@@ -207,12 +228,12 @@ def evaluate(case, seed, workdir, sets=None, io=None, full=False):
         out["n"] += 1
         if typ == "set":
             kinds = sorted(set(m["kinds"].values()))
-            names = sorted(m["files"])
+            names = sorted(m.get("only_named") or m["files"])
             label = "+".join(sorted({k.split("@")[0] for k in kinds}))
             for k in kinds:
                 out["kinds"][k.split("@")[0]] = out["kinds"].get(k.split("@")[0], 0) + 1
                 out["probes"]["position_" + k.split("@")[1]] = out["probes"].get("position_" + k.split("@")[1], 0) + 1
-            detail = {"damaged": {n: m["files"][n] for n in names}, "kinds": m["kinds"]}
+            detail = {"damaged": {n: m["files"][n] for n in m["files"]}, "kinds": m["kinds"]}
             rerun = {"sets": [m], "io": []}
         else:
             names = [m["file"]]
